@@ -71,7 +71,7 @@ impl Reason {
 }
 
 #[derive(Default, Debug)]
-pub struct Sink { pub reasons: Vec<Reason>, pub below_removed: Vec<Reason>, removed_depth: u32 }
+pub struct Sink { pub reasons: Vec<Reason>, pub below_removed: Vec<Reason>, pub says_nothing_about_absent: Vec<Reason>, removed_depth: u32 }
 impl Sink {
     fn push(&mut self, why: Why, lvl: Lvl, action: &'static str, at: &str) {
         let r = Reason { why, lvl, action, at: at.to_string() };
@@ -80,7 +80,13 @@ impl Sink {
 }
 
 #[derive(Clone, Copy, Debug, PartialEq, Eq)]
-pub enum Verdict { Ok, Refuse, RefuseBelowRemoved }
+pub enum Verdict {
+    Ok, Refuse, RefuseBelowRemoved,
+    /// the only misfit is a node that states nothing (`None`, no comment action, nothing stated anywhere below it) for a key the target does
+    /// not have: it carries no old value that could mismatch and no addition that could collide, and ignoring it changes "exactly what the
+    /// diff says" - nothing. The statement asks for neither outcome; a refusal and an application that leaves the key absent are both accepted.
+    RefuseOrIgnore,
+}
 
 #[derive(Debug)]
 pub struct Outcome {
@@ -89,10 +95,12 @@ pub struct Outcome {
     pub reasons: Vec<Reason>,
     /// requirements violated by actions below a removed entry (they do not influence `result`)
     pub below_removed: Vec<Reason>,
+    /// nodes that state nothing for a key the target does not have (see `Verdict::RefuseOrIgnore`)
+    pub says_nothing_about_absent: Vec<Reason>,
 }
 impl Outcome {
     pub fn verdict(&self) -> Verdict {
-        if !self.reasons.is_empty() { Verdict::Refuse } else if !self.below_removed.is_empty() { Verdict::RefuseBelowRemoved } else { Verdict::Ok }
+        if !self.reasons.is_empty() { Verdict::Refuse } else if !self.below_removed.is_empty() { Verdict::RefuseBelowRemoved } else if !self.says_nothing_about_absent.is_empty() { Verdict::RefuseOrIgnore } else { Verdict::Ok }
     }
     /// the distinct reason kinds (instance-free), sorted
     pub fn reason_kinds(&self) -> Vec<String> {
@@ -106,11 +114,11 @@ impl Ent for Class { fn names(&mut self) -> &mut Row { &mut self.names } fn comm
 impl Ent for Field { fn names(&mut self) -> &mut Row { &mut self.names } fn comment(&mut self) -> &mut Option<String> { &mut self.comment } }
 impl Ent for Method { fn names(&mut self) -> &mut Row { &mut self.names } fn comment(&mut self) -> &mut Option<String> { &mut self.comment } }
 impl Ent for Param { fn names(&mut self) -> &mut Row { &mut self.names } fn comment(&mut self) -> &mut Option<String> { &mut self.comment } }
-trait DEnt { fn name(&self) -> &Act<String>; fn comment(&self) -> &Act<String>; }
-impl DEnt for ClassDiff { fn name(&self) -> &Act<String> { &self.name } fn comment(&self) -> &Act<String> { &self.comment } }
-impl DEnt for FieldDiff { fn name(&self) -> &Act<String> { &self.name } fn comment(&self) -> &Act<String> { &self.comment } }
-impl DEnt for MethodDiff { fn name(&self) -> &Act<String> { &self.name } fn comment(&self) -> &Act<String> { &self.comment } }
-impl DEnt for ParamDiff { fn name(&self) -> &Act<String> { &self.name } fn comment(&self) -> &Act<String> { &self.comment } }
+trait DEnt { fn name(&self) -> &Act<String>; fn comment(&self) -> &Act<String>; /* no action on the node, its comment or anything below it */ fn states_nothing(&self) -> bool; }
+impl DEnt for ClassDiff { fn name(&self) -> &Act<String> { &self.name } fn comment(&self) -> &Act<String> { &self.comment } fn states_nothing(&self) -> bool { self.name == Act::None && self.comment == Act::None && self.fields.values().all(|f| f.states_nothing()) && self.methods.values().all(|m| m.states_nothing()) } }
+impl DEnt for FieldDiff { fn name(&self) -> &Act<String> { &self.name } fn comment(&self) -> &Act<String> { &self.comment } fn states_nothing(&self) -> bool { self.name == Act::None && self.comment == Act::None } }
+impl DEnt for MethodDiff { fn name(&self) -> &Act<String> { &self.name } fn comment(&self) -> &Act<String> { &self.comment } fn states_nothing(&self) -> bool { self.name == Act::None && self.comment == Act::None && self.params.values().all(|p| p.states_nothing()) } }
+impl DEnt for ParamDiff { fn name(&self) -> &Act<String> { &self.name } fn comment(&self) -> &Act<String> { &self.comment } fn states_nothing(&self) -> bool { self.name == Act::None && self.comment == Act::None } }
 
 fn apply_comment(lvl: Lvl, act: &Act<String>, cur: &mut Option<String>, at: &str, sink: &mut Sink) {
     match act {
@@ -157,6 +165,7 @@ fn apply_map<K: Ord + Clone + Debug, E: Ent, D: DEnt>(
                     children(d, &mut e, &here, sink);
                     targets.insert(k.clone(), e);
                 }
+                Act::None if d.states_nothing() => sink.says_nothing_about_absent.push(Reason { why: Why::AbsentEntry, lvl, action: "None", at: here.clone() }),
                 other => sink.push(Why::AbsentEntry, lvl, other.kind(), &here),
             },
         }
@@ -187,7 +196,7 @@ pub fn ref_apply(d: &MapsDiff, tgt: &Tgt, t: usize) -> Outcome {
                     apply_map(Lvl::Param, t, &md.params, &mut m.params, at, sink, &|_: &usize| Param { names: row(None), comment: None }, &mut |_, _, _, _| {});
                 });
         });
-    Outcome { result: out, reasons: sink.reasons, below_removed: sink.below_removed }
+    Outcome { result: out, reasons: sink.reasons, below_removed: sink.below_removed, says_nothing_about_absent: sink.says_nothing_about_absent }
 }
 
 /// Why R-diff cannot state the difference of two sets.
